@@ -11,6 +11,7 @@ CONSTANTS
   CacheMisses = TRUE
   VerBumps = FALSE
   Forges = FALSE
+  Legacies = TRUE
   FailKinds = {"fnerror2"}
 VIEW view
 ACTION_CONSTRAINT Emit
